@@ -1,6 +1,8 @@
 mod tables;
 
 pub use tables::CLDR_VERSION;
+#[cfg(unic_locale_verif)]
+pub use tables::{LANG_ONLY, LANG_REGION, LANG_SCRIPT, REGION_ONLY, SCRIPT_ONLY, SCRIPT_REGION};
 
 use crate::subtags;
 
